@@ -701,8 +701,9 @@ func executorGetPointData(point string) (*extractorPointData, error) {
 
 	// points come in the form <field>:<index>#<id> and each of index or id is optional
 	if strings.Contains(point, "#") {
-		idData := strings.Split(point, "#")
+		// everything after the first # is the id: ids are opaque and may contain # themselves
 		const longIDParts = 2
+		idData := strings.SplitN(point, "#", longIDParts)
 		if len(idData) == longIDParts {
 			id = idData[1]
 		}
